@@ -18,6 +18,8 @@ import traceback
 
 ROOT = os.path.dirname(os.path.dirname(os.path.abspath(__file__)))
 REPO = os.environ.get("URAL_REPO", "/repo")
+# scratch runs (mutation campaigns against a copy of the repository) write their evidence / replays elsewhere
+OUT = os.environ.get("VERIF_OUT", ROOT)
 VENV_PY = os.environ.get("URAL_PYTHON", "/venv/bin/python")
 
 
@@ -96,7 +98,7 @@ def match_known(known, v):
 
 
 def write_replay(pid, payload):
-    d = os.path.join(ROOT, "replays", pid)
+    d = os.path.join(OUT, "replays", pid)
     os.makedirs(d, exist_ok=True)
     blob = json.dumps(payload, sort_keys=True, default=repr, ensure_ascii=True)
     h = hashlib.sha256(blob.encode()).hexdigest()[:12]
@@ -129,7 +131,8 @@ def run_property(spec, tier, seed, replay=None, jobs=16):
     # ------------------------------------------------------------ Engine B
     b_results = []
     for modname in spec.get("bounded", []):
-        out = os.path.join(ROOT, "evidence", ".%s.%s.json" % (pid, modname.split(".")[-1]))
+        os.makedirs(os.path.join(OUT, "evidence"), exist_ok=True)
+        out = os.path.join(OUT, "evidence", ".%s.%s.json" % (pid, modname.split(".")[-1]))
         cmd = [VENV_PY, "-m", modname, "--tier", tier, "--seed", str(seed), "--out", out, "--jobs", str(jobs)]
         if replay:
             cmd += ["--replay", replay]
@@ -253,9 +256,9 @@ def run_property(spec, tier, seed, replay=None, jobs=16):
     if obligations == 0 and spec.get("functions") and not undecided:
         lines.append("CHECKER-FAILURE property=%s zero obligations generated" % pid)
         status = status or 3
-    os.makedirs(os.path.join(ROOT, "evidence"), exist_ok=True)
+    os.makedirs(os.path.join(OUT, "evidence"), exist_ok=True)
     if not replay:
-        with open(os.path.join(ROOT, "evidence", "%s.json" % pid), "w") as f:
+        with open(os.path.join(OUT, "evidence", "%s.json" % pid), "w") as f:
             json.dump(ev, f, indent=1, default=repr, ensure_ascii=True)
     for ln in lines:
         print(ln)
